@@ -2225,7 +2225,96 @@ def update_all_candidates(prog: Program) -> RuleResult:
     return res
 
 
+# ---------------------------------------------------------------------------
+# PRIVATE-INDEX, ITERABLE-ONCE
+
+
+def private_index(prog: Program) -> RuleResult:
+    res = RuleResult(
+        "PRIVATE-INDEX",
+        "the ancestry structure keeps what it computes to itself: LowestCommonAncestor and its helpers store into "
+        "`self.*` only and never write an attribute or feature on the nodes of the tree they index (two structures "
+        "built over overlapping trees - a clade and its enclosing tree - would overwrite each other's indices)",
+    )
+    mod = prog.module(TREES)
+    n = 0
+    for qual, fn in prog.defs(TREES).items():
+        if not isinstance(fn, FuncNode) or not (qual.startswith("LowestCommonAncestor.") or qual.startswith("_euler")):
+            continue
+        n += 1
+        construct = f"{TREES}:{qual}/private-index"
+        bad = None
+        for node in walk_no_nested(fn):
+            if isinstance(node, ast.Call) and isinstance(node.func, ast.Attribute) and node.func.attr in ("add_feature", "add_features", "del_feature"):
+                bad = node
+            elif isinstance(node, ast.Call) and dotted(node.func) == "setattr" and node.args and dotted(node.args[0]) != "self":
+                bad = node
+            elif isinstance(node, (ast.Assign, ast.AugAssign)):
+                for tgt in (node.targets if isinstance(node, ast.Assign) else [node.target]):
+                    if isinstance(tgt, ast.Attribute):
+                        root = tgt
+                        while isinstance(root, (ast.Attribute, ast.Subscript)):
+                            root = root.value
+                        if not (isinstance(root, ast.Name) and root.id == "self"):
+                            bad = node
+        if bad is not None:
+            res.fail(construct, f"`{short(bad, 80)}` writes on a node of the indexed tree: the index is shared by every structure built over that node", mod, bad)
+        else:
+            res.ok(construct, "stores into self only")
+    if n < 3:
+        raise AnalysisError("PRIVATE-INDEX: LowestCommonAncestor not found")
+    return res
+
+
+def iterable_once(prog: Program) -> RuleResult:
+    res = RuleResult(
+        "ITERABLE-ONCE",
+        "a parameter annotated `Iterable[...]` / `Iterator[...]` promises nothing more than one pass: the function "
+        "walks it at most once (and not inside a loop) unless it materialises it first - a generator argument is "
+        "empty on the second pass, silently",
+    )
+    n = 0
+    for mod in sorted(prog.modules.values(), key=lambda m: m.relpath):
+        key = _modkey(mod)
+        for qual, fn in prog.defs(mod.name).items():
+            if not isinstance(fn, FuncNode):
+                continue
+            for a in fn.args.posonlyargs + fn.args.args + fn.args.kwonlyargs:
+                ann = unparse(a.annotation) if a.annotation is not None else ""
+                if not (ann.startswith("Iterable[") or ann.startswith("Iterator[") or ann in ("Iterable", "Iterator")):
+                    continue
+                if ann.startswith("Iterable[") and "Family" in ann or ann in ("Synteny",):
+                    continue
+                n += 1
+                construct = f"{key}:{qual}/one-pass[{a.arg}]"
+                materialised = any(
+                    isinstance(st, ast.Assign) and any(isinstance(t, ast.Name) and t.id == a.arg for t in st.targets)
+                    and isinstance(st.value, ast.Call) and dotted(st.value.func) in ("list", "tuple", "sorted", "set", "frozenset")
+                    for st in fn.body[:3]
+                )
+                sites = []
+                for use in walk_no_nested(fn):
+                    if isinstance(use, (ast.For, ast.comprehension)) and isinstance(use.iter, ast.Name) and use.iter.id == a.arg:
+                        anchor = use if isinstance(use, ast.For) else use.iter
+                        inside = [l for l in loops_around(fn, anchor) if l is not use]
+                        sites.append((anchor, bool(inside)))
+                    elif isinstance(use, ast.Call) and any(isinstance(x, ast.Name) and x.id == a.arg for x in use.args):
+                        fname = dotted(use.func) or ""
+                        if fname in ("list", "tuple", "set", "sorted", "sum", "max", "min", "any", "all", "dict", "map", "filter", "zip", "enumerate", "chain"):
+                            sites.append((use, bool(loops_around(fn, use))))
+                if materialised or len(sites) <= 1 and not any(inl for _s, inl in sites):
+                    res.ok(construct, "walked once" if not materialised else "materialised first")
+                else:
+                    second = sorted(sites, key=lambda s_: getattr(s_[0], "lineno", 0))[-1][0]
+                    res.fail(construct, f"`{a.arg}` is annotated {ann} but walked {len(sites)} times (again at `{short(second, 60)}`): a one-shot iterable is empty on the second pass", mod, second)
+    if n < 1:
+        raise AnalysisError("ITERABLE-ONCE: no Iterable parameter found")
+    return res
+
+
 RULES = {
+    "PRIVATE-INDEX": private_index,
+    "ITERABLE-ONCE": iterable_once,
     "UPDATE-ALL-CANDIDATES": update_all_candidates,
     "HASH-CANONICAL": hash_canonical,
     "NODE-OPAQUE": node_opaque,
